@@ -35,6 +35,65 @@ func init() {
 		Rule{Name: "C10-R14-adopted-connection-published", Doc: "in every bring-up path the socket handed to the core (rt.TCPUp(conn)) was first stored in the transport's own connection field: Stop — which closes what it finds there — can always reach the socket of the generation it tears down", Run: c10AdoptedPublished})
 }
 
+func init() {
+	registry["C10"].Rules = append(registry["C10"].Rules,
+		Rule{Name: "C10-R15-open-resets-cycle-state", Doc: "before Open starts the transport it clears the shutdown flag a previous Close left set, installs a fresh reconnect-cancel channel and a fresh supervisor: a connection opened again after Close reconnects, notifies and closes like a new one", Run: c10OpenResets})
+}
+
+func c10OpenResets(r *Run) {
+	const rule = "C10-R15-open-resets-cycle-state"
+	w := r.W
+	open := w.Fn("hsms", "connection.Open")
+	r.Analysed(w.FnName(open))
+	var start ssa.Instruction
+	eachInstr(open, func(in ssa.Instruction) {
+		if c, ok := in.(ssa.CallInstruction); ok && c.Common().IsInvoke() && c.Common().Method.Name() == "Start" {
+			start = in
+		}
+	})
+	if start == nil {
+		r.Undecided(rule, "Open: transport start", open.Pos(), "no tr.Start call")
+		return
+	}
+	storeOn := func(field string, pred func(args []ssa.Value) bool) bool {
+		f := w.Field("hsms", "connection", field)
+		found := false
+		eachInstr(open, func(in ssa.Instruction) {
+			c, ok := in.(*ssa.Call)
+			if !ok || calleeOf(c).Static == nil || baseName(calleeOf(c).Static) != "Store" || len(c.Call.Args) < 2 {
+				return
+			}
+			if fa, ok := c.Call.Args[0].(*ssa.FieldAddr); ok && sameVar(fieldOf(fa), f) && instrDominates(in, start) && pred(c.Call.Args[1:]) {
+				found = true
+			}
+		})
+		return found
+	}
+	r.Check(storeOn("shutdown", func(a []ssa.Value) bool {
+		c, ok := a[0].(*ssa.Const)
+		return ok && c.Value != nil && c.Value.String() == "false"
+	}), rule, "Open clears the shutdown flag before starting the transport", open.Pos(), "shutdown.Store(false) ≺ tr.Start", "a connection re-opened after Close keeps shutdown set: after the next involuntary drop it never reconnects")
+	r.Check(storeOn("reconnectCancel", func(a []ssa.Value) bool {
+		// the address of a channel made in this call
+		al, ok := a[0].(*ssa.Alloc)
+		if !ok {
+			return false
+		}
+		for _, ref := range *al.Referrers() {
+			if st, ok := ref.(*ssa.Store); ok && st.Addr == ssa.Value(al) {
+				if _, isMake := st.Val.(*ssa.MakeChan); isMake {
+					return true
+				}
+			}
+		}
+		return false
+	}), rule, "Open installs a fresh reconnect-cancel channel", open.Pos(), "reconnectCancel.Store(&make(chan struct{}))", "the channel a previous Close closed would still be in place: every reconnect backoff of the new cycle is skipped or the loop is told to stop at once")
+	r.Check(storeOn("sup", func(a []ssa.Value) bool {
+		c, ok := resolveCell(a[0]).(*ssa.Call)
+		return ok && calleeOf(c).Static != nil && calleeOf(c).Static.Name() == "newSupervisor"
+	}), rule, "Open installs a fresh supervisor", open.Pos(), "sup.Store(newSupervisor(…))", "the supervisor of the previous cycle (closed latch set, state word sealed) would be reused")
+}
+
 func c10AdoptedPublished(r *Run) {
 	const rule = "C10-R14-adopted-connection-published"
 	w := r.W
